@@ -155,3 +155,7 @@ mod test {
         assert!(Priority::Finalize < Priority::Init);
     }
 }
+
+#[cfg(kani)]
+#[path = "/verif/kani/aranya-runtime/command.rs"]
+mod verif_kani;
